@@ -192,13 +192,14 @@ def run_hybrid(first, tier, res):
     combos = [(f1,)] + [(f1, f2) for f2 in fv]
     n = 0
     for combo in combos:
-        for rename in (False, True):
+        # no rename / the first field gets another python name / a python name that starts with an underscore
+        for rename in (False, True, "_"):
             names = ["f%d" % i for i in range(len(combo))]
             xof = {}
             for nm, (k, lab, kw, dv) in zip(names, combo):
                 ft = menu()[k]["ftype"]
                 xof[nm] = xo.Field(getattr(ft, "_XoStruct", ft), **kw) if kw else ft
-            ren = {names[0]: "py_" + names[0]} if rename else {}
+            ren = {names[0]: ("_" if rename == "_" else "py_") + names[0]} if rename else {}
             n += 1
             H = type("C19H%d_%d" % (first, n), (xo.HybridClass,), {"_xofields": xof, "_rename": ren})
             fields = [(ren.get(nm, nm), nm, k) for nm, (k, lab, kw, dv) in zip(names, combo)]
